@@ -60,7 +60,7 @@ Lemma rename_fresh g a b g' : rename g a b = FOk g' -> lstat g b = None -> at_or
   g' = map (move_entry a b) g /\ exists na, In (a, na) g.
 Proof.
   unfold rename. destruct (lstat g a) as [na|] eqn:Ea; [|discriminate].
-  destruct (negb (is_dir g (pathdir b))); [discriminate|]. intros H Hb Hab. rewrite Hab, Hb in H.
+  destruct (negb (is_dir g (pathdir b)) || negb (names_fit b)); [discriminate|]. intros H Hb Hab. rewrite Hab, Hb in H.
   injection H as <-. split; [reflexivity|]. exists na. now apply fs_get_in.
 Qed.
 
